@@ -1,9 +1,9 @@
 package props
 
 import (
-	"errors"
 	"encoding/binary"
 	"encoding/json"
+	"errors"
 	"fmt"
 	"hash/fnv"
 	"os"
